@@ -702,8 +702,13 @@ class DavSession:
             pick = toks[:1] + toks[1:][-(self.max_sync_tokens - 1):] if len(toks) > self.max_sync_tokens else toks
             # issued tokens first, newest first (an initial sync must not be what makes a token
             # the collection handed out usable), then the empty token, then a foreign one
+            # a token another collection of this server issued (and this one never did)
+            # (not the id of the empty tree: every repository knows that object)
+            sib = [t for oc in sorted(self.tokens) if oc != c for t in self.tokens[oc][-2:]
+                   if t not in toks and "4b825dc642cb6eb9a060e54bf8d69288fbee4904" not in t]
             for tok, tk in [(t, "issued") for t in reversed(pick)] + [("", "empty")] + \
-                           [(FOREIGN_TOKENS[self.foreign_i % len(FOREIGN_TOKENS)], "foreign")]:
+                           [(FOREIGN_TOKENS[self.foreign_i % len(FOREIGN_TOKENS)], "foreign")] + \
+                           [(t, "foreign") for t in sib[-1:]]:
                 sync.append(self._sync_report(c, path, base_url, tok, tk, members))
             self.foreign_i += 1
         typed_fallback = self._typed(c)
